@@ -146,8 +146,8 @@ def attach_funnel(run, deciding=True):
             rshape = rp.result_shape(o1, o2, mode)
         except ValueError:
             return mon.skip("outer shapes do not broadcast")
-        if 0 in rshape:
-            return mon.skip("empty composite")
+        if 0 in rshape or a1.size == 0 or a2.size == 0:
+            return mon.skip("empty composite or empty unit")
         sig = "%s/u%dx%d" % (mode, u1, u2)
         case = {"array1": a1, "array2": a2, "unit_axis_1": int(u1),
                 "unit_axis_2": int(u2), "broadcast": mode,
@@ -281,8 +281,10 @@ class Judge:
                 raise
             self.mon.fail("%s/%s/exception:%s/on-%s" % (self.mon.name, self.op,
                                                         type(e).__name__, unitdesc),
-                          "%s raises %s (%s) on the %s although the composite call returned"
-                          % (self.op, type(e).__name__, str(e)[:120], unitdesc),
+                          "%s raises %s (%s) on the %s%s"
+                          % (self.op, type(e).__name__, str(e)[:120], unitdesc,
+                             "" if unitdesc.startswith("composite") else
+                             " although the composite call returned"),
                           dict(self.case, part=part), tb=traceback.format_exc())
             return False, None
 
@@ -443,7 +445,6 @@ def wl_points(run, rng, idx):
                 wu = pu.unit_tangent_towards(H.Point(R[i].copy()))
                 J.dev("primary", rp.tangent_dev(tv.proj_data[i], tu.proj_data), i)
                 J.dev("auxiliary", rp.tangent_dev(tv.aux_data[i], tu.aux_data), i)
-                J.num("auxiliary-raw", tv.aux_data[i], tu.aux_data, i, tol=1e-8)
                 Jp.dev("array-distance", rp.max_row_dev(
                     along_a.proj_data[i], tu.point_along(float(dist_arr[i])).proj_data), i)
                 Jp.dev("scalar-distance", rp.max_row_dev(
@@ -557,7 +558,8 @@ def wl_circles(run, rng, idx):
         call = lambda o: o.circle_parameters(model=model, degrees=degrees)
         parts = ("centre", "radius", "angles")
     J = Judge(run, "per-index", op, sig, case)
-    ok, res = J.call("composite", lambda: call(X), unitdesc="composite")
+    ok, res = J.call("composite", lambda: call(X),
+                     unitdesc="composite-rank%d" % len(shape) if shape else "unit")
     if not ok:
         return
     res = [arr(r) for r in res]
@@ -698,7 +700,7 @@ def wl_structure(run, rng, idx):
 
     def same(op, obj, unit, where):
         """obj (a unit-shaped piece of a structural result) is the unit."""
-        key = "structure/%s/%s" % (op, kind if False else "unit-mismatch")
+        key = "structure/%s/unit-mismatch" % op
         if obj.shape != ():
             return mon.fail("structure/%s/shape" % op,
                             "%s: piece at %r has composite shape %r" % (op, where, obj.shape), case)
@@ -786,7 +788,7 @@ def wl_structure(run, rng, idx):
             for i, u in units:
                 if not same("stack", piece(S, i), u, i):
                     break
-    S2 = cls([X, X[::-1] if False else X])
+    S2 = cls([X, X])
     if mon.require(S2.shape == (2,) + shape, "structure/stack-composites/shape",
                    "%s([X, X]) has shape %r, expected %r" % (cls.__name__, S2.shape, (2,) + shape), case):
         for i, u in units:
